@@ -127,6 +127,148 @@ func (w *world) allRecordIds() []string {
 	return ids
 }
 
+// template plays one of a few legitimate multi-step histories (real builder, fresh views) that leave
+// the ACL in a state random wandering rarely reaches: a member with a stale pending join request, an
+// owner who used to be a requester, a declined request of a current member, a removed-and-re-added
+// account, a pending leave request of an admin. Every step is judged like any other record.
+func (w *world) template(judge func(before preState, k int)) {
+	s := w.r.Src
+	if len(w.accs) < 4 {
+		return
+	}
+	kind := s.Choose("template", 7)
+	if kind == 0 {
+		return
+	}
+	owner := w.accs[0]
+	x := w.accs[1+s.Choose("tmpl-x", len(w.accs)-1)]
+	do := func(actor *simlib.Account, desc string, build func(b list.AclRecordBuilder) (*consensusproto.RawRecord, error)) bool {
+		v := w.views[actor.Name]
+		if v.stuck {
+			return false
+		}
+		w.catchUp(v, len(w.chain)-1)
+		if v.stuck {
+			return false
+		}
+		before := w.pre()
+		raw, err := build(v.acl.RecordBuilder())
+		if err != nil || raw == nil {
+			w.r.Event("template-step-refused", "%s: %s: %v", actor.Name, desc, errShort(err))
+			return false
+		}
+		k, err := w.submit(actor, raw, desc)
+		if err != nil {
+			w.r.Event("template-step-rejected", "%s: %s: %v", actor.Name, desc, errShort(err))
+			return false
+		}
+		w.r.Event("accepted", "#%d %s: %s [template %d]", k, actor.Name, desc, kind)
+		if judge != nil {
+			judge(before, k)
+		}
+		return true
+	}
+	cur := func() *simlib.Account { // the current owner
+		if o, err := w.cons.AclState().OwnerPubKey(); err == nil {
+			if a, ok := w.byKey[keyOf(o)]; ok {
+				return a
+			}
+		}
+		return owner
+	}
+	var invKey crypto.PrivKey
+	newInvite := func() bool {
+		return do(cur(), "invite(request)", func(b list.AclRecordBuilder) (*consensusproto.RawRecord, error) {
+			res, err := b.BuildInvite()
+			invKey = res.InviteKey
+			return res.InviteRec, err
+		})
+	}
+	requestJoin := func(a *simlib.Account) bool {
+		return do(a, "request-join", func(b list.AclRecordBuilder) (*consensusproto.RawRecord, error) {
+			return b.BuildRequestJoin(list.RequestJoinPayload{InviteKey: invKey, Metadata: []byte("m")})
+		})
+	}
+	add := func(a *simlib.Account, p list.AclPermissions) bool {
+		return do(cur(), fmt.Sprintf("add(%s,%s)", a.Name, permName(p)), func(b list.AclRecordBuilder) (*consensusproto.RawRecord, error) {
+			return b.BuildAccountsAdd(list.AccountsAddPayload{Additions: []list.AccountAdd{{Identity: a.Pub(), Permissions: p, Metadata: []byte("m")}}})
+		})
+	}
+	pendingOf := func(a *simlib.Account) string {
+		if rr, err := w.cons.AclState().Record(a.Pub()); err == nil {
+			return rr.RecordId
+		}
+		return ""
+	}
+	if !w.cons.AclState().Permissions(x.Pub()).NoPermissions() {
+		// templates start from an outsider
+		do(cur(), "remove("+x.Name+")", func(b list.AclRecordBuilder) (*consensusproto.RawRecord, error) {
+			return b.BuildAccountRemove(list.AccountRemovePayload{Identities: []crypto.PubKey{x.Pub()}, Change: newKeys()})
+		})
+	}
+	switch kind {
+	case 1, 2: // stale join request of a directly added member; optionally it becomes owner and the request is declined
+		if !newInvite() || !requestJoin(x) {
+			return
+		}
+		w.invs = append(w.invs, &invite{seq: len(w.invs), key: invKey})
+		if !add(x, []list.AclPermissions{list.AclPermissionsWriter, list.AclPermissionsAdmin, list.AclPermissionsGuest}[s.Choose("tmpl-perm", 3)]) {
+			return
+		}
+		if kind == 2 {
+			do(cur(), "ownership("+x.Name+")", func(b list.AclRecordBuilder) (*consensusproto.RawRecord, error) {
+				return b.BuildOwnershipChange(list.OwnershipChangePayload{NewOwner: x.Pub(), OldOwnerPermissions: list.AclPermissionsAdmin})
+			})
+		}
+		if id := pendingOf(x); id != "" && s.Flip("tmpl-decline", 0.6) {
+			// any manager declines the stale request
+			mgr := owner
+			if kind == 2 {
+				mgr = owner // the former owner is an admin now
+			}
+			do(mgr, "decline("+w.rec(id)+")", func(b list.AclRecordBuilder) (*consensusproto.RawRecord, error) { return b.BuildRequestDecline(id) })
+		}
+	case 3: // removed and re-added
+		add(x, list.AclPermissionsWriter)
+		do(cur(), "remove("+x.Name+")", func(b list.AclRecordBuilder) (*consensusproto.RawRecord, error) {
+			return b.BuildAccountRemove(list.AccountRemovePayload{Identities: []crypto.PubKey{x.Pub()}, Change: newKeys()})
+		})
+		if s.Flip("tmpl-readd", 0.7) {
+			add(x, w.pickPerm("tmpl-perm"))
+		}
+	case 4: // an admin asks to leave
+		if add(x, list.AclPermissionsAdmin) {
+			do(x, "request-remove", func(b list.AclRecordBuilder) (*consensusproto.RawRecord, error) { return b.BuildRequestRemove() })
+		}
+	case 6: // a pending join request is superseded by a join through an open invite
+		if newInvite() && requestJoin(x) {
+			w.invs = append(w.invs, &invite{seq: len(w.invs), key: invKey})
+			var openKey crypto.PrivKey
+			if do(cur(), "invite(anyone)", func(b list.AclRecordBuilder) (*consensusproto.RawRecord, error) {
+				res, err := b.BuildInviteAnyone([]list.AclPermissions{list.AclPermissionsReader, list.AclPermissionsWriter}[s.Choose("tmpl-perm", 2)])
+				openKey = res.InviteKey
+				return res.InviteRec, err
+			}) {
+				w.invs = append(w.invs, &invite{seq: len(w.invs), key: openKey, open: true, recId: w.chain[len(w.chain)-1].Id})
+				do(x, "invite-join", func(b list.AclRecordBuilder) (*consensusproto.RawRecord, error) {
+					return b.BuildInviteJoinWithoutApprove(list.InviteJoinPayload{InviteKey: openKey, Metadata: []byte("m")})
+				})
+			}
+		}
+	case 5: // request, cancel, request again
+		if newInvite() && requestJoin(x) {
+			w.invs = append(w.invs, &invite{seq: len(w.invs), key: invKey})
+			if id := pendingOf(x); id != "" {
+				do(x, "cancel("+w.rec(id)+")", func(b list.AclRecordBuilder) (*consensusproto.RawRecord, error) { return b.BuildRequestCancel(id) })
+			}
+			if s.Flip("tmpl-again", 0.5) {
+				requestJoin(x)
+			}
+		}
+	}
+	w.r.Probe(fmt.Sprintf("template-%d", kind))
+}
+
 // honestOp performs one honest operation; returns the chain index of the accepted record or -1.
 func (w *world) honestOp() int {
 	s := w.r.Src
